@@ -21,14 +21,18 @@ ENUM = {
     "quick": [dict(module="MC_Matching", cfg="MC_Matching_quick.cfg", workers=12),
               dict(module="MC_Matching", cfg="MC_Matching_quick_boxes.cfg", workers=4),
               dict(module="MC_Matching", cfg="MC_Matching_sim3.cfg", workers=4, simulate="num=300", depth=30)],
-    "thorough": [dict(module="MC_Matching", cfg="MC_Matching_thorough.cfg", workers=16, coverage=True),
-                 dict(module="MC_Matching", cfg="MC_Matching_thorough_boxes.cfg", workers=16, coverage=True),
-                 dict(module="MC_Matching", cfg="MC_Matching_sim3.cfg", workers=8, simulate="num=20000", depth=30)],
+    # coverage (an action never taken = failure) on the small config only: TLC's interim coverage reports of a long run contain zeros
+    "thorough": [dict(module="MC_Matching", cfg="MC_Matching_quick_boxes.cfg", workers=4, coverage=True),
+                 dict(module="MC_Matching", cfg="MC_Matching_thorough.cfg", workers=16),
+                 dict(module="MC_Matching", cfg="MC_Matching_thorough_n5.cfg", workers=16),
+                 dict(module="MC_Matching", cfg="MC_Matching_thorough_boxes.cfg", workers=16),
+                 dict(module="MC_Matching", cfg="MC_Matching_sim3.cfg", workers=4, simulate="num=2500", depth=30)],
 }
 POOL = 12
 CHUNK = 1500
-RULE = ("every pair of lists (lengths 0..2 each quick, n + m <= 5 thorough, 3 x 3 sampled by tlc -simulate) over the proper "
-        "intervals of 0..4 / a box-and-interval alphabet, order significant, run at three dyadic units; plus random lists "
+RULE = ("every pair of lists (lengths 0..2 each over the proper intervals of 0..3 quick / 0..4 thorough and over a box-and-interval "
+        "alphabet; n + m <= 5 with n, m <= 3 thorough; 3 x 3 sampled by tlc -simulate), order significant, run at three dyadic "
+        "units; plus random lists "
         "(0..4 geometries a side, all nine kinds, arbitrary doubles); non-trivial = both lists non-empty")
 TRUSTED_BASE = ["checks/c07.py (build lists, list(match_geometries(...)), compute_affinity of every pair, encode; "
                 "indices +1, None -> [])"]
@@ -63,8 +67,8 @@ def _random(case):
 
     def one(kind):
         for _ in range(50):
-            a0 = rng.uniform(0.0, 4.0)
-            g = _mk(kind, _rand_coords(rng, kind, a0, a0 + rng.uniform(0.3, 3.0)))
+            a0 = rng.uniform(0.0, 2.5)                  # a narrow window and band: overlaps are frequent
+            g = _mk(kind, _rand_coords(rng, kind, a0, a0 + rng.uniform(0.3, 3.0), 1000.0, 4000.0))
             if geometry_to_shapely(g).is_valid:
                 return g
         raise RuntimeError("no valid random geometry")
